@@ -203,7 +203,7 @@ func pivot2Run(x *run, pw *pivot2World, scheme string, seed int64) {
 		x.cancel = nil
 		x.sum.Count("pivot2:cycle")
 		x.mu.Unlock()
-		if err != nil && err != snap.ErrCancelled {
+		if err != nil && !isCancel(err) {
 			x.mu.Lock()
 			x.violate(fmt.Sprintf("snap sync failed although a peer able to make progress is present: %v", err), tl.M{})
 			x.mu.Unlock()
